@@ -181,7 +181,9 @@ def cmd_check(pid, tier):
                 path = core.write_replay(pid, "oracle", {
                     "property": pid, "what": "property oracle %s fails on the implementation" % name,
                     "mode": st.mode, "hook": st.hook, "case": small, "impl": a2, "model": b2,
-                    "original_case": c, "count_in_stream": len(unknown), "stream": st.name})
+                    "original_case": c, "count_in_stream": len(unknown), "stream": st.name,
+                    "kind": "oracle", "oracles": sorted(st.oracles) if st.oracles is not None else None,
+                    "project": getattr(st.project, "_name", None)})
                 violations.append(("oracle", path, True))
             elif sr.disagree:
                 c, a, b = sr.disagree[0]
@@ -191,7 +193,9 @@ def cmd_check(pid, tier):
                     "what": "correspondence stream %s/%s no longer checks: model and implementation differ, "
                             "but the implementation-side property oracle found no failing input" % (st.name, st.mode),
                     "mode": st.mode, "hook": st.hook, "case": small, "impl": a, "model": b,
-                    "count_in_stream": len(sr.disagree), "stream": st.name})
+                    "count_in_stream": len(sr.disagree), "stream": st.name,
+                    "kind": "disagree", "oracles": sorted(st.oracles) if st.oracles is not None else None,
+                    "project": getattr(st.project, "_name", None)})
                 violations.append(("disagree", path, False))
 
     # 3b. the quantifier domains (diff variants, mutators, adapters, methods) the model was written for
@@ -258,8 +262,17 @@ def cmd_replay(path):
     log("case :", r["case"])
     log("impl :", a)
     log("model:", b)
-    fails = core.OK_FAIL.findall(a)
-    if fails or a != core.strip_class(b):
+    from .props import PROJ_BY_NAME
+    impl_line = a.split("   <= ")[0]          # checker modes append the raw recorded history
+    fails = core.OK_FAIL.findall(impl_line)
+    if r.get("oracles") is not None:
+        fails = [f for f in fails if f in r["oracles"]]
+    proj = PROJ_BY_NAME.get(r.get("project") or "")
+    bs = core.strip_class(b)
+    differ = (proj(impl_line) != proj(bs)) if proj else (impl_line != bs)
+    if r.get("mode") in core.CHECKER_MODES or r.get("mode") == "race":
+        log("(non-deterministic mode: the recorded observation in the replay file is the evidence; this re-run is a new sample)")
+    if fails or differ:
         log("REPRODUCED (%s)" % ("oracle " + ",".join(fails) if fails else "disagreement"))
         return 1
     log("not reproduced on this tree")
